@@ -129,6 +129,70 @@ let universe : bmove list Lazy.t = lazy (
 let spec_every = ref 0
 let nB = ref 0
 
+(* ---------- semantic readings of the presentation texts (what the properties say, not the model's exact bytes) ----------
+   used only when the library's text differs from the model's: if the text still says what the property requires, the
+   difference is a broken tie (reported under a "-shape" field), not a failing input *)
+let lines_of s = String.split_on_char '\n' s
+let strip_non_ascii s = String.concat "" (List.map (fun c -> if Char.code c < 128 then String.make 1 c else "") (List.init (String.length s) (String.get s)))
+let no_blanks s = String.concat "" (String.split_on_char ' ' s)
+let lower = String.lowercase_ascii
+let contains hay needle =
+  let n = String.length needle and h = String.length hay in
+  let rec go i = i + n <= h && (String.sub hay i n = needle || go (i + 1)) in n = 0 || go 0
+(* board rendering: a header naming side to move and rights, 8 labelled rank rows in the stated order whose 8 equal-width
+   cells hold the piece letter or blanks, a legend of the files in the stated order *)
+let render_says (text : string) (cell : int -> int -> char) (stm : color) (rights : string) (flipped : bool) : bool =
+  let ls = List.filter (fun l -> String.trim (strip_non_ascii l) <> "") (lines_of text) in
+  match ls with
+  | [] -> false
+  | header :: rest ->
+    let hl = lower header in
+    let side_ok = (match stm with White -> contains hl "white" && not (contains hl "black") | Black -> contains hl "black" && not (contains hl "white")) in
+    let rights_ok = contains (no_blanks header) rights in
+    let rows = List.filter (fun l -> let t = String.trim (strip_non_ascii l) in t <> "" && t.[0] >= '1' && t.[0] <= '8') rest in
+    let labels = List.map (fun l -> (String.trim (strip_non_ascii l)).[0]) rows in
+    let want_labels = if flipped then ['1';'2';'3';'4';'5';'6';'7';'8'] else ['8';'7';'6';'5';'4';'3';'2';'1'] in
+    let row_ok l =
+      let t = strip_non_ascii l in
+      let i = ref 0 in while !i < String.length t && t.[!i] = ' ' do incr i done;
+      let r = Char.code t.[!i] - 49 in
+      (* the cells are what stands between the first and the last non-ASCII delimiter, or after the label *)
+      let first_na = (let k = ref (-1) in String.iteri (fun j c -> if !k < 0 && Char.code c >= 128 then k := j) l; !k) in
+      let last_na = (let k = ref (-1) in String.iteri (fun j c -> if Char.code c >= 128 then k := j) l; !k) in
+      let body = if first_na >= 0 && last_na > first_na then strip_non_ascii (String.sub l first_na (last_na - first_na)) else String.sub t (!i + 1) (String.length t - !i - 1) in
+      let n = String.length body in
+      n > 0 && n mod 8 = 0 &&
+      (let w = n / 8 in
+       List.for_all (fun k -> let c = String.trim (String.sub body (k * w) w) in
+                      let f = if flipped then 7 - k else k in
+                      let want = cell r f in
+                      if want = '.' then c = "" else c = String.make 1 want) [0;1;2;3;4;5;6;7]) in
+    let legend_ok = List.exists (fun l -> no_blanks (strip_non_ascii l) = (if flipped then "hgfedcba" else "abcdefgh")) rest in
+    side_ok && rights_ok && labels = want_labels && List.for_all row_ok rows && legend_ok
+(* bitboard grid: 8 rows of 8 marks over a two-symbol alphabet, eighth rank on top, a-file on the left *)
+let bb_grid_says (text : string) (is_set : int -> bool) : bool =
+  let rows = List.filter (fun l -> l <> "") (List.map no_blanks (lines_of text)) in
+  List.length rows = 8 && List.for_all (fun r -> String.length r = 8) rows &&
+  (let marks = List.concat (List.mapi (fun i r -> List.init 8 (fun f -> (((7 - i) * 8 + f), r.[f]))) rows) in
+   let set_marks = List.sort_uniq compare (List.filter_map (fun (s, c) -> if is_set s then Some c else None) marks)
+   and clear_marks = List.sort_uniq compare (List.filter_map (fun (s, c) -> if is_set s then None else Some c) marks) in
+   List.length set_marks <= 1 && List.length clear_marks <= 1 && (set_marks = [] || clear_marks = [] || set_marks <> clear_marks))
+(* move list: the SAN texts in order as separate tokens, move numbers consecutive from 1 *)
+let movelist_says (text : string) (sans : string list) (white_first : bool) : bool =
+  let toks = List.filter (fun t -> t <> "") (String.split_on_char ' ' (String.concat " " (lines_of text))) in
+  let nums = ref [] and moves = ref [] in
+  List.iter (fun t ->
+      (* a leading run of digits followed by dots is a move number; what remains (if anything) is a move token; bare dots are filler *)
+      let n = String.length t in
+      let i = ref 0 in while !i < n && t.[!i] >= '0' && t.[!i] <= '9' do incr i done;
+      let j = ref !i in while !j < n && t.[!j] = '.' do incr j done;
+      if !i > 0 && !j > !i then begin nums := int_of_string (String.sub t 0 !i) :: !nums; if !j < n then moves := String.sub t !j (n - !j) :: !moves end
+      else if !i = 0 && !j = n then ()
+      else moves := t :: !moves) toks;
+  let nums = List.rev !nums and moves = List.rev !moves in
+  let nm = List.length sans in
+  let want_nums = if nm = 0 then 0 else if white_first then (nm + 1) / 2 else nm / 2 + 1 in
+  moves = sans && nums = List.init want_nums (fun k -> k + 1)
 let check_B line toks =
   let fs = fields_of toks in
   let get k = List.assoc_opt k fs in
@@ -140,6 +204,8 @@ let check_B line toks =
     | Some g -> if g <> e then report "B" id field e g line
     | None -> report "B" id field e "<missing>" line in
   bump "B-records";
+  (* the library's own invariant monitor must be quiet on every board the library lets exist, whatever the model thinks of it *)
+  (match get "mon" with Some "ok" | None -> () | Some x -> report "B" id "mon" "ok" x line);
   (* construction from the generator's descriptor *)
   (match get "src" with
    | Some src ->
@@ -190,7 +256,7 @@ let check_B line toks =
         exp "td" (res_str (fun x -> if x then "1" else "0") (is_theoretical_draw b));
         exp "ksq" (match king_square b White, king_square b Black with
             | Ok w, Ok k -> Printf.sprintf "%d,%d" (int_of_n w) (int_of_n k) | _ -> "PANIC");
-        exp "mon" "ok"; exp "nodup" "1"; exp "refen" "ok"; exp "resetup" "ok"; exp "rebuilder" "ok"; exp "disp" "ok";
+        exp "nodup" "1"; exp "refen" "ok"; exp "resetup" "ok"; exp "rebuilder" "ok"; exp "disp" "ok";
         let ms = sorted_moves b in
         (match ms with
          | Ok ms ->
@@ -230,8 +296,23 @@ let check_B line toks =
          | _ -> exp "moves" "PANIC");
         exp "cq" (res_str (fun r -> string_of_int (int_of_cr r)) (castling_available b None));
         exp "fen" (res_str string_of_bytes (as_fen b));
-        (match get "rs" with Some _ -> exp "rs" (res_str (fun x -> tohex (string_of_bytes x)) (render_straight b));
-                              exp "rf" (res_str (fun x -> tohex (string_of_bytes x)) (render_flipped b)) | None -> ());
+        (match get "rs" with
+         | Some _ ->
+           let cellc r f = (match piece_on b (n_of_int (r * 8 + f)) with
+               | Ok (Some (t, c)) -> let ch = (string_of_bytes (letter t)).[0] in (match c with White -> Char.uppercase_ascii ch | Black -> Char.lowercase_ascii ch)
+               | _ -> '.') in
+           let rights = String.uppercase_ascii (string_of_bytes (print_cr b.b_wr)) ^ string_of_bytes (print_cr b.b_br) in
+           let one field flipped model =
+             (match get field, model with
+              | Some got, Ok m ->
+                let e = tohex (string_of_bytes m) in
+                if got <> e then begin
+                  if got <> "PANIC" && render_says (unhex got) cellc b.b_stm rights flipped then report "B" id (field ^ "-shape") e got line
+                  else report "B" id field e got line end
+              | Some got, _ -> report "B" id field "model-panic" got line
+              | None, _ -> ()) in
+           one "rs" false (render_straight b); one "rf" true (render_flipped b)
+         | None -> ());
         (match get "muni" with
          | Some _ ->
            let sqs = List.init 64 n_of_int in
@@ -365,7 +446,15 @@ let check_G line toks =
           | _ -> ());
          let pom i = match get_position_on_move g (n_of_int i) with Ok _ -> "ok" | _ -> "err" in
          exp "pom" (String.concat "," [pom 0; pom (max 0 (np - 1)); pom np; pom (np + 1)]);
-         exp "hist" (res_str (fun x -> tohex (string_of_bytes x)) (history_string g));
+         (match get "hist", history_string g with
+          | Some got, Ok m ->
+            let e = tohex (string_of_bytes m) in
+            if got <> e then begin
+              let white_first = (match g.g_positions with p0 :: _ -> p0.b_stm = White | [] -> true) in
+              if got <> "PANIC" && movelist_says (unhex got) (List.map string_of_bytes (san_list g)) white_first then report "G" id "hist-shape" e got line
+              else report "G" id "hist" e got line end
+          | Some got, _ -> report "G" id "hist" "model-panic" got line
+          | None, _ -> ());
          (match get "cnts" with
           | Some got ->
             exp "cnts" (String.concat "," (List.map (fun p -> dec_of_n (position_counter g p)) g.g_positions));
@@ -500,6 +589,30 @@ let check_N line toks =
           if ascii then exp "tag" (tohex (string_of_bytes tag)) else bump "N-nonascii-tag-skipped"
         end)
    | _ -> ())
+(* R records: the regex crate applied to the source's own patterns — compared with the model's matcher *)
+let check_R line toks =
+  let fs = fields_of toks in
+  let get k = List.assoc_opt k fs in
+  let id = match get "id" with Some x -> x | None -> "?" in
+  bump "R-records";
+  (match get "err" with Some e -> report "R" id "re-patterns" "found" e line | None -> ());
+  (match get "in" with
+   | None -> ()
+   | Some inp ->
+     let raw = unhex inp in
+     nontrivial ("R" ^ inp);
+     let s = bytes_of_string raw in
+     let ascii = not (List.exists (fun c -> Char.code c >= 128) (List.init (String.length raw) (String.get raw))) in
+     let exp field e = match get field with Some g -> if g <> e then report "R" id ("re-" ^ field) e g line | None -> () in
+     let toks = scan_moves s in
+     if toks <> [] then bump "R-with-move-token";
+     exp "mv" (String.concat "," (List.map (fun t -> tohex (string_of_bytes t)) toks));
+     exp "res" (match scan_result s with None -> "-" | Some t -> bump "R-with-result"; string_of_bytes (print_rtag t));
+     exp "sp" (match moves_part s with None -> "none" | Some b -> bump "R-with-split"; "ok:" ^ tohex (string_of_bytes b));
+     if ascii then begin
+       let tg = scan_tags s O in
+       if tg <> [] then bump "R-with-tag";
+       exp "tg" (String.concat "," (List.map (fun (k, v) -> tohex (string_of_bytes k) ^ "=" ^ tohex (string_of_bytes v)) tg)) end)
 let check_M line toks =
   let fs = fields_of toks in
   let get k = List.assoc_opt k fs in
@@ -610,6 +723,14 @@ let check_P line toks =
       | "pmove_new_pawn_promo" -> Some "err"
       | _ -> None in
     (match e with
+     | Some e when e <> v && f = "bb_render" && bb_grid_says (unhex v) (fun sq -> List.mem sq (List.map int_of_n (bits (n_of_hex a)))) ->
+       report "P" (f ^ "(" ^ a ^ ")") (f ^ "-shape") e v line
+     | Some e when e <> v && f = "gstatus_text" &&
+                   (let lv = lower v in
+                    match String.split_on_char '-' a with
+                    | ["mated"; x] | ["resigned"; x] -> let win, lose = (if x = "w" then ("black", "white") else ("white", "black")) in contains lv win && not (contains lv lose)
+                    | _ -> true) ->
+       report "P" (f ^ "(" ^ a ^ ")") (f ^ "-shape") e v line
      | Some e -> if e <> v then report "P" (f ^ "(" ^ a ^ ")") f e v line
      | None -> bump "P-unknown"; report "P" (f ^ "(" ^ a ^ ")") f "<oracle has no such function>" v line)
   | _ -> ()
@@ -640,6 +761,7 @@ let () =
         | "S" :: toks -> check_S line toks
         | "F" :: toks -> check_F line toks
         | "N" :: toks -> check_N line toks
+        | "R" :: toks -> check_R line toks
         | "X" :: toks ->
           let fs = fields_of toks in
           bump "X-records";
